@@ -13,6 +13,7 @@ CONSTANTS
   Shapes = {"none", "exact", "wholedb", "unrelated", "both", "chain", "swap"}
   KindsUsed = {"createDatabase", "dropDatabase", "alterDatabase", "flush", "createIndex", "dropIndex", "alterIndex", "loadCollection", "releaseCollection", "loadPartitions", "releasePartitions", "createCredential", "deleteCredential", "updateCredential", "createRole", "dropRole", "operateUserRole", "operatePrivilege", "createCollection", "dropCollection", "createPartition", "dropPartition", "insert", "delete", "dropPartitionMsg", "dropCollectionMsg", "import", "waitDatabase", "waitCollection", "waitPartition"}
   StaleMemo = FALSE
+  EventMutated = FALSE
   HKinds = {"loadCollection", "delete"}
   HSDBs = {"default", "other"}
   HColls = {"c1"}
